@@ -305,6 +305,14 @@ where
         // read the remainder polynomial from the channel and make sure it agrees with the evaluations
         // from the previous layer.
         let remainder_poly = channel.read_remainder()?;
+
+        // the prover committed to the remainder polynomial (the commitment was absorbed into the
+        // public coin before query positions were drawn): make sure this is the polynomial we got
+        let remainder_commitment = H::hash_elements(&remainder_poly);
+        if self.layer_commitments.last() != Some(&remainder_commitment) {
+            return Err(VerifierError::RemainderCommitmentMismatch);
+        }
+
         if remainder_poly.len() > max_degree_plus_1 {
             return Err(VerifierError::RemainderDegreeMismatch(max_degree_plus_1 - 1));
         }
